@@ -213,6 +213,27 @@ def _run(F, R, ctx):
                "the visited set: a cycle that runs only through cells of this kind (a box holding itself, two boxes "
                "holding each other) makes equal? loop forever" % (k, k), vfn.loc(vfn.blocks[e].get("line")),
                sample={"descend_calls": len(desc), "visited_tests": len(guards)})
+    # cross-kind arms one side of which is a mutable cell (a mutable vector can hold the immutable vector that holds it)
+    kinds = [v["name"] for v in F.adt("SteelVal")["variants"]]
+    for k in sorted(set(cells)):
+        for o in kinds:
+            for (l_, r_) in ((k, o), (o, k)):
+                if l_ == r_ or "Custom" in (l_, r_):
+                    continue
+                e = pair_arm(l_, r_)
+                if e == fall:
+                    continue
+                region = vfn.reachable_from([e], avoid=hdr)
+                desc = [b for b in region if vfn.blocks[b]["k"] == "call" and re.search(DESC, lib.short_name(vfn.blocks[b]["callee"]))]
+                guards = [b for b in region if vfn.blocks[b]["k"] == "call" and vfn.blocks[b]["callee"] in inserters]
+                ok = True
+                if desc:
+                    ok, _ = vfn.every_path_passes_from([e], desc, guards) if guards else (False, None)
+                R.inst("C18.c", "equality arm (%s, %s) guards its descent" % (l_, r_), ok,
+                       "the (%s, %s) arm of RecursiveEqualityHandler::visit descends into the contents without consulting the "
+                       "visited set: a cycle that alternates between the two kinds (a mutable vector holding the immutable "
+                       "vector that holds it) makes equal? loop forever" % (l_, r_), vfn.loc(vfn.blocks[e].get("line")),
+                       sample={"descend_calls": len(desc), "visited_tests": len(guards)})
     depth = fn.call_blocks(r"rvals::cycles::eq_depth$") or [i for i, b in lib.family_calls(F, fn) if re.search(r"eq_depth$", b["callee"])]
     R.inst("C18.c", "RecursiveEqualityHandler::visit bounds its recursion depth", bool(depth),
            "RecursiveEqualityHandler::visit no longer tests eq_depth()", fn.loc(), sample=True)
